@@ -3,7 +3,7 @@
    `shuf` is ANY function returning a permutation of its argument. *)
 From Coq Require Import ZArith List Bool Permutation Sorted.
 From Common Require Import Res.
-From Core Require Import World Model Step ListLemmas Reach Proofs_C01 Proofs_C01b.
+From Core Require Import World Model Step ListLemmas Reach Inv_Tl Proofs_C01 Proofs_C01b.
 Import ListNotations.
 Open Scope Z_scope.
 
@@ -178,3 +178,43 @@ Example C01_add_overflow_example :
   r = Raise TracklistFull /\ map tlid (World.tl w') = [2; 3; 1] /\ version w' = version w + 1 /\ next_tlid w' = 4.
 Proof. vm_compute. repeat split; reflexivity. Qed.
 Print Assumptions C01_add_overflow_example.
+
+(* Never reissued, also when a snapshot is restored into a LIVE tracklist (the operation `Load`
+   starts a new process, as Core._setup does; TracklistController._load_state itself keeps
+   max(saved next_tlid, current)): through load_state from ANY state the counter never goes
+   back and the record of issued IDs only grows ... *)
+Theorem C01_live_restore_keeps_issued_ids :
+  forall shuf fuel cov s w r w',
+  load_state shuf fuel cov s w = (r, w') ->
+  next_tlid w <= next_tlid w' /\ exists l, issued w' = l ++ issued w.
+Proof. exact live_restore_keeps_ids. Qed.
+Print Assumptions C01_live_restore_keeps_issued_ids.
+
+(* ... so every ID issued before the restore is below the counter afterwards: add() (which hands
+   out next_tlid, next_tlid+1, ...: C01_add_block) cannot hand it out again. *)
+Theorem C01_live_restore_ids_stay_used :
+  forall shuf fuel mx cov s w r w',
+  tl_inv_mx mx w -> load_state shuf fuel cov s w = (r, w') ->
+  forall i, In i (issued w) -> i < next_tlid w'.
+Proof. exact live_restore_ids_stay_used. Qed.
+Print Assumptions C01_live_restore_ids_stay_used.
+
+(* the same for every single operation of a running process *)
+Theorem C01_step_keeps_issued_ids :
+  forall shuf fuel o w, (forall c, o <> Load c) ->
+  let w' := snd (run_op shuf fuel o w) in
+  next_tlid w <= next_tlid w' /\ exists l, issued w' = l ++ issued w.
+Proof. exact step_keeps_ids. Qed.
+Print Assumptions C01_step_keeps_issued_ids.
+
+Example C01_live_restore_example :
+  let w := run_world shuf_concrete 10 (init_world 50 [Playable; Playable] [None; None] [] None None)
+             [Add [0; 1] None; Save; Add [0; 0; 1] None; Clear] in
+  match saved w with
+  | Some s => let w' := snd (load_state shuf_concrete 10 (mkCov true true true true true) s w) in
+              next_tlid w = 6 /\ s_next_tlid s = 3 /\ next_tlid w' = 6 /\ map tlid (World.tl w') = [1; 2]
+              /\ issued w' = issued w
+  | None => False
+  end.
+Proof. vm_compute. repeat split; reflexivity. Qed.
+Print Assumptions C01_live_restore_example.
